@@ -552,7 +552,11 @@ def finish(ctx: Ctx) -> int:
         notes=ctx.notes,
     )
     EVIDENCE.mkdir(exist_ok=True)
-    (EVIDENCE / f"{ctx.prop}.json").write_text(json.dumps(ev, indent=1))
+    # the registered evidence file is written only by full runs of the registered commands; replays and
+    # development runs (--skip-lean) and runs against a scratch copy (VERIF_REPO) leave it alone
+    side = getattr(ctx, "is_replay", False) or getattr(ctx, "skip_lean", False) or str(REPO) != "/repo"
+    target = (REPLAYS / f"{ctx.prop}-last-side-run-evidence.json") if side else (EVIDENCE / f"{ctx.prop}.json")
+    target.write_text(json.dumps(ev, indent=1))
     for l in lines:
         print(l)
     print(
